@@ -2,6 +2,7 @@
 From Coq Require Import Strings.String Strings.Byte.
 From Coq Require Import List NArith ZArith.
 From Goit Require Import Bytes Obj Commit World Repo LogFacts.
+From Goit Require Import BranchFacts ChainFacts.
 Import ListNotations.
 
 (* T1: on the parent chain l of the tip, `log -n k` prints exactly the first
@@ -41,8 +42,35 @@ Proof. exact walk_history_nodup. Qed.
 Example C14_nonvacuous : chain ex_st LogFacts.ex_id3 ex_l /\ NoDup ex_l.
 Proof. split; [exact ex_chain | exact ex_nodup]. Qed.
 
+
+(* ---------- Part 2: every history ---------- *)
+(* After ANY history of commands and edits from an empty directory (absent a
+   flagged SHA-1 collision), when HEAD resolves to a commit its parent chain
+   exists and is duplicate-free, and `log -n k` — for every integer k — changes
+   nothing and prints exactly the first min(k, length) commits of that chain,
+   newest first.  No hypothesis on the history: resets to earlier commits
+   followed by new commits, several branches, identical snapshots reachable
+   twice are all covered. *)
+Theorem C14_log_on_every_reachable_repository : forall h e x tip cm n,
+  w_coll (run h w_empty) = false -> w_inited (run h w_empty) = true ->
+  ctx_of (run h w_empty) = Some x -> x_headc x = Some (tip, cm) ->
+  exists l, chain (w_objs (run h w_empty)) tip l /\ NoDup l /\
+    step (ACmd e (CLog n)) (run h w_empty) = (run h w_empty, OOk (map hex (firstn (Z.to_nat n) l)), []).
+Proof. exact step_log_on_reachable. Qed.
+
+(* the same for the tip of any branch (or any stored commit) *)
+Theorem C14_chain_of_every_commit : forall h,
+  w_coll (run h w_empty) = false -> forall tip cm,
+  get_commit (w_objs (run h w_empty)) tip = Some cm -> forall n,
+  exists l, chain (w_objs (run h w_empty)) tip l /\ NoDup l /\
+    walk_history (S (S (2 * length (w_objs (run h w_empty))))) (w_objs (run h w_empty)) [tip] [] 0 n
+    = Some (firstn (Z.to_nat n) l).
+Proof. exact log_on_reachable_any. Qed.
+
 Print Assumptions C14_log_spec.
 Print Assumptions C14_fuel_suffices.
 Print Assumptions C14_independence.
 Print Assumptions C14_bounded.
 Print Assumptions C14_each_once.
+Print Assumptions C14_log_on_every_reachable_repository.
+Print Assumptions C14_chain_of_every_commit.
